@@ -1,4 +1,6 @@
 import Zlink.Proofs.IdlIfaceRT
+import Zlink.Proofs.JsonStr
+import Zlink.Model.IdlExchange
 /-! # C14 — Rendering an interface description and parsing it back is the identity
 
 Models: `Zlink/Model/IdlRender.lean` (the `Display` impls) and `Zlink/Model/Idl.lean` (the parser).
@@ -48,6 +50,35 @@ theorem C14_render_fixpoint (a : Iface) (hok : ifaceOK a = true) (hvi : noVCI a 
     (hvc : noVariantComments a = true) :
     ∃ b, parseInterface (renderIface a) = .ok b ∧ renderIface b = renderIface a :=
   ⟨a, C14_parse_render a hok hvi hvc, rfl⟩
+
+/-- the reply frame of the exchange is opened again to exactly the text that went in -/
+theorem decode_encode_reply (a : Iface) : IdlExchange.decodeReply (IdlExchange.encodeReply a) = some (renderIface a) := by
+  unfold IdlExchange.decodeReply IdlExchange.encodeReply
+  have h1 : IdlExchange.pre.isPrefixOf (IdlExchange.pre ++ Ser.quoted JsonStr.tbl (renderIface a) ++ IdlExchange.post) = true := by
+    rw [List.append_assoc]; simp [List.isPrefixOf_iff_prefix]
+  rw [if_pos h1]
+  have h2 : (IdlExchange.pre ++ Ser.quoted JsonStr.tbl (renderIface a) ++ IdlExchange.post).drop IdlExchange.pre.length
+      = Ser.quoted JsonStr.tbl (renderIface a) ++ IdlExchange.post := by
+    rw [List.append_assoc, List.drop_left]
+  simp only [h2, List.reverse_append]
+  have h3 : IdlExchange.post.reverse.isPrefixOf (IdlExchange.post.reverse ++ (Ser.quoted JsonStr.tbl (renderIface a)).reverse) = true := by
+    simp [List.isPrefixOf_iff_prefix]
+  rw [if_pos h3]
+  have h4 : (IdlExchange.post.reverse ++ (Ser.quoted JsonStr.tbl (renderIface a)).reverse).drop IdlExchange.post.length
+      = (Ser.quoted JsonStr.tbl (renderIface a)).reverse := by
+    have : IdlExchange.post.length = IdlExchange.post.reverse.length := by simp
+    rw [this, List.drop_left]
+  rw [h4, List.reverse_reverse]
+  exact JsonStr.readQuoted_quoted _
+
+/-- **The GetInterfaceDescription exchange** (unbounded): the description string the service writes —
+    its `Display` text through the JSON string escaping of the current source's table, whatever bytes
+    the comments contain — is read back by a JSON string reader to the same text, and parsing it
+    yields exactly the description the service described. -/
+theorem C14_exchange (a : Iface) (hok : ifaceOK a = true) (hvi : noVCI a = true)
+    (hvc : noVariantComments a = true) : IdlExchange.exchange a = some (.ok a) := by
+  unfold IdlExchange.exchange
+  rw [decode_encode_reply, Option.map_some, C14_parse_render a hok hvi hvc]
 
 /-- The full statement (kept visible): every well-formed description without commented enum variants
     is recovered from its rendering, and re-rendering reproduces the text. -/
